@@ -3,7 +3,7 @@ import io, contextlib, copy
 import core, enc, gen, oracles
 from core import call
 from gambatools import dfa_algorithms as DA, nfa_algorithms as NA, pda_algorithms as PA, cfg_algorithms as CA, regexp_algorithms as RA
-from gambatools import tm_algorithms as TA, language_generator as LG
+from gambatools import tm_algorithms as TA, language_generator as LG, language_algorithms as LA
 from gambatools.global_settings import GambaTools
 import exercises as EX
 
@@ -116,6 +116,9 @@ def ops():
         'cfg_eliminate_unit_rules': (['cfg'], CA.cfg_eliminate_unit_rules), 'cfg_make_rules_of_length_two': (['cfg'], CA.cfg_make_rules_of_length_two),
         'cfg_eliminate_terminals': (['cfg'], CA.cfg_eliminate_terminals), 'cfg_add_new_start_variable': (['cfg'], CA.cfg_add_new_start_variable),
         'generate_language': (['nfa'], W(LG.generate_language, 3)),
+        'regexp_words_up_to_0': (['rx'], W(RA.regexp_words_up_to_n, 0)),
+        'words_up_to_n': (['nfa'], lambda N: LA.words_up_to_n(set(N.Sigma), 2)),
+        'words_of_length_n': (['nfa'], lambda N: LA.words_of_length_n(set(N.Sigma), 2)),
     }
 
 
@@ -330,6 +333,11 @@ def judge(ctx, c, answers):
         history(random.Random(c['seed']))
         r4 = call(f, *[BUILDERS[k](c['args'][k]) for k in kinds], limit=20)
         tags = [('repeat', r2), ('logging', r3), ('history', r4)]
+        # the caller owns what it got: poison every mutable container of the FIRST result (its canonical value v1 was taken above),
+        # then call again on fresh equal arguments -- a result that is (part of) hidden shared state shows up here
+        fp1 = lang_fp(r1['ok']) if not named else None
+        scramble(r1['ok'])
+        tags.append(('earlier-result-edited-by-caller', call(f, *[BUILDERS[k](c['args'][k]) for k in kinds], limit=20)))
         if c['op'] in ('nfa_union', 'nfa_repetition'):
             # ... and from the state of the process-wide default generator after MANY earlier calls
             NA.nfa_union.__defaults__[0].index = 50 + c['seed'] % 7
@@ -337,7 +345,7 @@ def judge(ctx, c, answers):
             tags.append(('generator-state', call(f, *[BUILDERS[k](c['args'][k]) for k in kinds], limit=20)))
         for tag, r in tags:
             v = canon_result(r['ok']) if 'ok' in r else 'ERR'
-            same = (v == v1) if named else (lang_fp(r.get('ok')) == lang_fp(r1['ok']))
+            same = (v == v1) if named else (lang_fp(r.get('ok')) == fp1)
             if not same:
                 ctx.violation('result-depends-on-' + tag, {'case': c, 'first': str(v1)[:300], 'other': str(v)[:300]})
         # stale state: modify the first argument in place (a legal edit), call again, compare with a fresh equal object
@@ -371,6 +379,34 @@ def judge(ctx, c, answers):
         ctx.case({'op': c['op'], 'args': c['args']}, True)
     finally:
         GambaTools.pda_epsilon_closure_max_iterations = 1000
+
+
+def scramble(x, seen=None, depth=0):
+    """empty / poison the mutable containers reachable from a result (sets, lists, dicts, and the public fields of library objects)"""
+    seen = set() if seen is None else seen
+    if id(x) in seen or depth > 6:
+        return
+    seen.add(id(x))
+    if isinstance(x, set):
+        for y in list(x):
+            scramble(y, seen, depth + 1)
+        x.clear()
+        x.add('\x00poison')
+    elif isinstance(x, list):
+        for y in list(x):
+            scramble(y, seen, depth + 1)
+        del x[:]
+        x.append('\x00poison')
+    elif isinstance(x, dict):
+        for y in list(x.values()):
+            scramble(y, seen, depth + 1)
+        x.clear()
+    elif isinstance(x, tuple):
+        for y in x:
+            scramble(y, seen, depth + 1)
+    elif hasattr(x, '__dict__') and type(x).__module__.startswith('gambatools'):
+        for y in list(vars(x).values()):
+            scramble(y, seen, depth + 1)
 
 
 def lang_fp(N):
